@@ -1,6 +1,7 @@
 """Free-running, fault-injected and stray-wake scenarios of the thread probe (C05 / C06),
 judged at property level by TLC (ThreadLifeTrace.tla)."""
 import os
+import re
 
 from vlib import core
 from checks import thr_common as T
@@ -283,6 +284,31 @@ def panic_kinds(chk, col, bindir, tier, release=False, tag=""):
             r.release = release
             col.add(r, "free")
     col.flush("panic" + tag)
+
+
+WORK_KINDS = {1: "fork + wait, the child scribbles over its copy of the locals", 2: "spawns and joins a thread of its own",
+              3: "512 KiB of stack frames", 4: "allocation heavy"}
+
+
+def closure_work(chk, col, bindir, tier, release=False, tag=""):
+    """Closures that do what real programs do on a thread before they return or panic; the result is
+    derived from what they computed in their own stack and heap.  Traced: the flags of the stack
+    mapping are recorded as a structural lead (not a verdict)."""
+    script = ["set watchdog=4000", "baseline"]
+    for wk in sorted(WORK_KINDS):
+        script.append("one ty=u8 fin=ret op=join wk=%d" % wk)
+        script.append("one ty=arr fin=ret op=join wk=%d hdelay=3000" % wk)
+        script.append("one ty=vec fin=ret op=drop wk=%d" % wk)
+        script.append("one ty=u128 fin=panic op=join wk=%d pk=%d" % (wk, 5 + wk))
+    script.append("quiesce")
+    r = T.run_probe(chk, bindir, "closure-work" + tag, script, strace=True, timeout=180)
+    r.release = release
+    o, b, info = col.add(r, "free")
+    flags = sorted({re.sub(r"^.*?,.*?,.*?,\s*([A-Z_|0-9x]+),.*$", r"\1", t.mmap_rec["args"]) for t in o if getattr(t, "mmap_rec", None)})
+    chk.extra["stack_mapping_flags" + tag] = {"observed": flags,
+                                              "lead": "a thread's stack is memory private to the process image: MAP_PRIVATE|MAP_ANONYMOUS expected (not judged; the fork scenario judges the behaviour)",
+                                              "private_anonymous": all("MAP_PRIVATE" in f and "MAP_ANONYMOUS" in f for f in flags) if flags else None}
+    col.flush("work" + tag)
 
 
 def explore_handshake(chk, col, bindir, tier, release=False, tag=""):
